@@ -280,6 +280,19 @@ func c03Generate(c *mon.Ctx) {
 		emitBytes(append(append([]byte{4}, u[1:]...), u[1:]...), "prefix-stripped")
 	}
 
+	// 5g. valid encodings wrapped the way other formats carry them: DER OCTET STRING / BIT STRING (04 L ..., 03 L+1 00 ...),
+	// a one-byte or two-byte length prefix, nested
+	for _, enc := range [][]byte{oracle.EncC(g), oracle.EncU(g), {0}, oracle.EncC(pool.NonInf[6].P)} {
+		l := byte(len(enc))
+		oct := append([]byte{4, l}, enc...)
+		emitBytes(oct, "wrapped")
+		emitBytes(append([]byte{4, byte(len(oct))}, oct...), "wrapped")
+		emitBytes(append([]byte{3, l + 1, 0}, enc...), "wrapped")
+		emitBytes(append([]byte{l}, enc...), "wrapped")
+		emitBytes(append([]byte{0, l}, enc...), "wrapped")
+		emitBytes(append([]byte{0x30, l + 2, 4, l}, enc...), "wrapped")
+	}
+
 	// 5e. a valid encoding with one byte too many, every value, in front and behind
 	for _, enc := range [][]byte{oracle.EncC(g), oracle.EncU(g), {0}} {
 		for b := 0; b < 256; b++ {
